@@ -39,7 +39,7 @@ SERVER_OBJS = ["iodined", "user", "fw_query"]
 # libc entry points redirected to the simulated OS (simnet/shim.c)
 WRAPS = ["time", "select", "sleep", "socket", "bind", "setsockopt", "sendto", "recvfrom",
          "recv", "recvmsg", "open", "ioctl", "read", "write", "close", "system", "syslog",
-         "openlog", "geteuid", "getaddrinfo", "daemon", "chroot", "connect"]
+         "openlog", "geteuid", "getaddrinfo", "daemon", "chroot", "connect", "access"]
 
 
 def asan_env(logdir=None, extra=None):
